@@ -469,6 +469,70 @@ Definition step_wf (st : cstep) : bool :=
 Definition scheme_idx (steps : list cstep) : list index :=
   List.concat (map (fun st => (step_idx st ++ cs_con st ++ cs_tgt st)%list) steps).
 
+(* inner results are used with exactly their target indices *)
+Fixpoint idx_list_eqb (a b : list index) : bool :=
+  match a, b with
+  | [], [] => true
+  | x :: a', y :: b' => index_eqb x y && idx_list_eqb a' b'
+  | _, _ => false
+  end.
+Fixpoint link_ok (prev : list (string * list index)) (steps : list cstep) : bool :=
+  match steps with
+  | [] => true
+  | st :: r =>
+      forallb (fun op : string * list index =>
+                 if is_contraction (fst op) then
+                   match lookup (fst op) prev with
+                   | Some tg => idx_list_eqb (snd op) tg
+                   | None => false
+                   end
+                 else true) (cs_ops st)
+      && link_ok ((cs_name st, cs_tgt st) :: prev) r
+  end.
+(* a contracted index of a step is neither requested nor used by a later step
+   (the part of C16's well-formedness that is not local to a step) *)
+Fixpoint no_leak (requested : list index) (steps : list cstep) : bool :=
+  match steps with
+  | [] => true
+  | st :: r =>
+      forallb (fun c => negb (imem c requested) &&
+                        negb (existsb (fun st' : cstep => existsb (fun op : string * list index => imem c (snd op)) (cs_ops st')) r))
+              (cs_con st)
+      && no_leak requested r
+  end.
+Definition last_tgt_ok (requested : list index) (steps : list cstep) : bool :=
+  match rev steps with
+  | o :: _ => idx_list_eqb (cs_tgt o) requested
+  | [] => false
+  end.
+(* distinct base objects are printed with distinct names (the binding of
+   printed names to tensor values is satisfiable for arbitrary values) *)
+Definition base_ops (steps : list cstep) : list (string * list index) :=
+  filter (fun op : string * list index => negb (is_contraction (fst op))) (List.concat (map cs_ops steps)).
+Fixpoint same_sorts (a b : list index) : bool :=
+  match a, b with
+  | [], [] => true
+  | x :: a', y :: b' => same_sort x y && same_sorts a' b'
+  | _, _ => false
+  end.
+Definition printed_name (cfg : tnames) (be : backend) (op : string * list index) : string :=
+  match be with
+  | Einsum => translate_adcc cfg (fst op) (snd op)
+  | Libtensor => match translate_libadc cfg (fst op) (snd op) with Ok n => n | _ => "?" end
+  end.
+Definition bind_ok (cfg : tnames) (be : backend) (steps : list cstep) : bool :=
+  let b := base_ops steps in
+  forallb (fun o1 => forallb (fun o2 =>
+     implb (String.eqb (printed_name cfg be o1) (printed_name cfg be o2))
+           (String.eqb (fst o1) (fst o2) && same_sorts (snd o1) (snd o2))) b) b.
+
+Record checks := Checks { c_names : bool; c_letters : bool; c_steps : bool; c_bind : bool;
+                          c_noleak : bool; c_target : bool }.
+Definition scheme_checks (cfg : tnames) (be : backend) (requested : list index) (steps : list cstep) : checks :=
+  let D := (scheme_idx steps ++ requested)%list in
+  Checks (names_inj D) (single_letter D) (forallb step_wf steps && link_ok [] steps)
+         (bind_ok cfg be steps) (no_leak requested steps) (last_tgt_ok requested steps).
+
 (* ------------------------------------------------------------------ *)
 (** * The interpreter *)
 
@@ -548,37 +612,42 @@ Fixpoint run_np (e : cexpr) : arr :=
   | _ => Arr [] (fun _ => 0)       (* not Python syntax *)
   end.
 
-(** libtensor: labelled tensor expressions.  Value = function of the
-    assignment of the labels; the range of a contracted label is the range of
-    the first tensor axis carrying it (searched through nested expressions) *)
-Fixpoint first_some {A} (l : list (option A)) : option A :=
-  match l with [] => None | Some a :: _ => Some a | None :: r => first_some r end.
-Fixpoint deep_dim (l : string) (e : cexpr) : option (list nat) :=
-  match e with
-  | CLab s ls => find_dim l ls (adims (tenv s))
-  | CContract _ args | CDot args | CMul args | CEinsum _ _ args => first_some (map (deep_dim l) args)
-  | CName _ => None
+(** libtensor: labelled tensor expressions.  An expression evaluates to its
+    free labels (with the range of each) and a function of the assignment of
+    the labels.  contract(c1|c2, e1, e2, ..) sums the product of the operands
+    over the labels c1, c2; dot_product sums over all labels; e1 * e2 is the
+    product (scalar factors, outer products). *)
+Definition ltens := (list (string * list nat) * (lenv -> KS))%type.
+Fixpoint lab_dim (labs : list (string * list nat)) (l : string) : list nat :=
+  match labs with
+  | [] => []
+  | kd :: r => if String.eqb (fst kd) l then snd kd else lab_dim r l
   end.
-Definition args_dim (args : list cexpr) (l : string) : list nat :=
-  match first_some (map (deep_dim l) args) with Some d => d | None => [] end.
-Fixpoint free_labels (e : cexpr) : list string :=
-  match e with
-  | CLab _ ls => sdedup ls
-  | CContract con args => filter (fun l => negb (str_mem l con)) (sdedup (List.concat (map free_labels args)))
-  | CDot _ => []
-  | CMul args => sdedup (List.concat (map free_labels args))
-  | _ => []
+Fixpoint ldedup_acc (seen : list string) (labs : list (string * list nat)) : list (string * list nat) :=
+  match labs with
+  | [] => []
+  | kd :: r => if str_mem (fst kd) seen then ldedup_acc seen r
+               else kd :: ldedup_acc (fst kd :: seen) r
   end.
-Fixpoint run_lt (e : cexpr) (p : lenv) : KS :=
+Definition ldedup labs := ldedup_acc [] labs.
+Definition lt_prod (vs : list ltens) (p : lenv) : KS := kprod (map (fun v : ltens => snd v p) vs).
+Definition lt_labels (vs : list ltens) := ldedup (List.concat (map (fun v : ltens => fst v) vs)).
+
+Fixpoint run_lt (e : cexpr) : ltens :=
   match e with
-  | CLab s ls => aval (tenv s) (map p ls)
+  | CLab s ls => (ldedup (combine ls (adims (tenv s))), fun p => aval (tenv s) (map p ls))
   | CContract con args =>
-      lsum con (args_dim args) p (fun p' => kprod (map (fun a => run_lt a p') args))
+      let vs := map run_lt args in
+      let labs := lt_labels vs in
+      (filter (fun kd => negb (str_mem (fst kd) con)) labs,
+       fun p => lsum con (lab_dim labs) p (lt_prod vs))
   | CDot args =>
-      lsum (sdedup (List.concat (map free_labels args))) (args_dim args) p
-           (fun p' => kprod (map (fun a => run_lt a p') args))
-  | CMul args => kprod (map (fun a => run_lt a p) args)
-  | _ => 0
+      let vs := map run_lt args in
+      let labs := lt_labels vs in
+      ([], fun p => lsum (map (fun kd : string * list nat => fst kd) labs) (lab_dim labs) p (lt_prod vs))
+  | CMul args =>
+      let vs := map run_lt args in (lt_labels vs, lt_prod vs)
+  | _ => ([], fun _ => 0)         (* not libtensor syntax *)
   end.
 
 (** prefactors *)
@@ -601,7 +670,7 @@ Definition run_line (be : backend) (tgt : list string) (l : line) (p : lenv) : K
   | None => 1
   | Some (e, _) => match be with
                    | Einsum => aval (run_np e) (map p tgt)
-                   | Libtensor => run_lt e p
+                   | Libtensor => snd (run_lt e) p
                    end
   end.
 
